@@ -235,17 +235,18 @@ pub fn mods_menu(dst: u8, rich: bool) -> Vec<ModSpec> {
         ModSpec::Bits(DT),
         ModSpec::Bits(EZ | HT),
         ModSpec::Bits(HD | FL),
+        // mods that switch skills or formulas off (Relax everywhere, Autopilot in osu!)
+        ModSpec::Bits(RX),
     ];
     if rich {
         v.push(ModSpec::Bits(HD | HR | DT));
-        v.push(ModSpec::Bits(RX));
         v.push(ModSpec::Rate(1.3));
     }
     match dst {
         0 => {
+            v.push(ModSpec::Bits(AP));
             if rich {
                 v.push(ModSpec::Bits(TD));
-                v.push(ModSpec::Bits(AP));
                 v.push(ModSpec::Mirror(None));
                 v.push(ModSpec::Mirror(Some("2")));
                 v.push(ModSpec::Classic(None));
